@@ -110,13 +110,19 @@ impl LoadBalancer {
   pub async fn wait_for_connection(&self) -> Result<(), ZmqError> {
     let notify = self.notify_waiters.clone();
     loop {
+      // Register as a waiter *before* checking, so that an `add_connection()` /
+      // `deactivate()` landing between the check and the await cannot be lost
+      // (`notify_waiters()` stores no permit).
+      let notified = notify.notified();
+      tokio::pin!(notified);
+      notified.as_mut().enable();
       if self.deactivated.load(std::sync::atomic::Ordering::Acquire) {
         return Err(ZmqError::InvalidState("Socket closed".into()));
       }
       if !self.state.lock().peers.is_empty() {
         return Ok(());
       }
-      notify.notified().await;
+      notified.await;
     }
   }
 
